@@ -236,6 +236,10 @@ func unmarshalChannel(s interface{}) (Channel, error) {
 		}
 	}
 
+	if address == nil {
+		return nil, errors.Errorf("Missing or invalid channel address in: %+v", stuff)
+	}
+
 	var channel Channel
 	switch address.Scheme {
 	case "socks":
